@@ -156,12 +156,22 @@ theorem assemble_linebreak (recog : Bytes → Bool) (k : Kw) (hraw : k.raw = fal
     feedLines recog k buf gap ((a ++ s ++ rest') :: rest) = feedLines recog k buf gap (a :: rest' :: rest) :=
   OpmVerif.RawKw.assemble_linebreak recog k hraw buf gap a s rest' rest hane hbne hs hsep ha hout hra hrb
 
+/-- An empty cleaned line — a blank, whitespace-only or comment-only line of the source —
+anywhere inside a keyword (between records, or between the lines of a record outside a
+quoted token) changes neither the raw keyword nor the lines left over. -/
+theorem blank_line_inside_keyword (recog : Bytes → Bool) (k : Kw) (buf gap : Bytes) (lines : List Bytes)
+    (hgap : ∀ c ∈ gap, isSep c = true) (hout : buf = [] ∨ tokState none buf ≠ some true) :
+    feedLines recog k buf gap ([] :: lines) = feedLines recog k buf gap lines :=
+  feedLines_empty_line recog k buf gap lines hgap hout
+
 def demoKw : Kw := { sizeType := .slashTerminated, raw := false, records := [], minSize := 0, fixedSize := 0,
                      numTables := 0, curTables := 0, tempFinished := false, finished := false }
 
 example : BalancedNoSlash (b "'P 1' 'G'") ∧ tokState none (extendBuf [] [] (b "'P 1' 'G'")) ≠ some true := by decide +kernel
 example : feedLines (fun _ => false) demoKw [] [] [b "'P 1' 'G'  3 4 /", b "/"] =
           feedLines (fun _ => false) demoKw [] [] [b "'P 1' 'G'", b "3 4 /", b "/"] := by decide +kernel
+example : feedLines (fun _ => false) demoKw (b "'P 1' 'G'") [] [[], b "3 4 /", [], b "/"] =
+          feedLines (fun _ => false) demoKw (b "'P 1' 'G'") [] [b "3 4 /", b "/"] := by decide +kernel
 example : (feedLines (fun _ => false) demoKw [] [] [b "'P 1' 'G'", b "3 4 /", b "/"]).map (·.1.records) =
           some [[b "'P 1'", b "'G'", b "3", b "4"]] := by decide +kernel
 
